@@ -158,13 +158,20 @@ func init() {
 	reg(&PropSpec{
 		ID: "C18",
 		Harnesses: func(tier string) []HarnessSpec {
-			return []HarnessSpec{{Name: "snapshots", Pkg: "cluster", Func: "ZZ_C18_Snapshots", Params: pm("U", tierSel(tier, 3, 4), "N", 3, "MOVE", 1, "ROT", 1),
-				Witnesses: []string{"duplicate-entry", "leave", "member-listed-under-another-host"}, Deadline: 30 * time.Minute, ReplayAttempts: 24},
+			hs := []HarnessSpec{{Name: "snapshots", Pkg: "cluster", Func: "ZZ_C18_Snapshots", Params: pm("U", 3, "N", 3, "MOVE", 1, "ROT", 1),
+				Witnesses: []string{"duplicate-entry", "leave", "member-listed-under-another-host", "two-members-on-one-host"}, Deadline: 30 * time.Minute, ReplayAttempts: 24},
 				{Name: "snapshots-under-every-rotation-of-map-order", Pkg: "cluster", Func: "ZZ_C18_Snapshots", Params: pm("U", tierSel(tier, 4, 5), "N", 2, "MOVE", 1, "ROT", 1),
 					Witnesses: []string{"leave"}, Deadline: 60 * time.Minute, ReplayAttempts: 24}}
+			if tier == "thorough" {
+				// 3 snapshots over 4 members with host changes and shared hosts did not finish in 30 minutes (95 million
+				// states); without the host variations it does
+				hs = append(hs, HarnessSpec{Name: "snapshots-four-members-fixed-hosts", Pkg: "cluster", Func: "ZZ_C18_Snapshots", Params: pm("U", 4, "N", 3, "MOVE", 0, "ROT", 1),
+					Witnesses: []string{"duplicate-entry", "leave"}, Deadline: 60 * time.Minute, ReplayAttempts: 24})
+			}
+			return hs
 		},
 		Bounds: func(tier string) string {
-			return fmt.Sprintf("sequences of 3 snapshots over a universe of %d members, and of 2 snapshots over %d members, with fixed kind sets (one member without kinds, two sharing a kind); membership of each member in each snapshot, a change of host under the same ID and a duplicate entry are symbolic booleans; every snapshot contains the observing node; the last snapshot of each history is processed under every rotation of the map iteration order (4 snapshots over 4 members did not finish in 30 minutes and is not registered)", tierSel(tier, 3, 4), tierSel(tier, 4, 5))
+			return fmt.Sprintf("sequences of 3 snapshots over a universe of 3 members, and of 2 snapshots over %d members, with fixed kind sets (one member without kinds, two sharing a kind); membership of each member in each snapshot, a change of host under the same ID, a host shared with another member (two IDs on one address) and a duplicate entry are symbolic booleans; every snapshot contains the observing node; the last snapshot of each history is processed under every rotation of the map iteration order%s (3 snapshots over 4 members with host variations, and 4 snapshots over 4 members, did not finish in 30 minutes and are not registered)", tierSel(tier, 4, 5), map[string]string{"quick": "", "thorough": "; thorough adds 3 snapshots over 4 members with fixed hosts"}[tier])
 		},
 		Outside:     []string{"members that change their kinds between snapshots while keeping their ID (a change of host under the same ID is included: symbolic per entry)", "the Request/Result plumbing around Members()/HasKind() (the agent is sent the same getMembers/getKinds messages and its answers are checked, next to its state)", "longer sequences / larger universes", "map iteration order: insertion order, and for the last snapshot of a history every rotation of it (the orders Go produces for a small map); other permutations are not explored"},
 		Assumptions: seqAssume("Agent built by NewAgent on a Cluster value whose engine is a bare engine with a synchronous event sink; snapshots are delivered by calling Agent.Receive"),
